@@ -1193,15 +1193,17 @@ theorem gwRecvEnd_fail (cfg : Cfg) (st : St) (e : End) (hs : st.started = true) 
   · subst h; simp [gwRecvEnd, hb, hfe]
   · subst h; simp [gwRecvEnd, hb, hfe, hs]
 
-theorem gwBackendError_unsent (cfg : Cfg) (st : St) (hs : st.started = true) (hn : st.hdrSent = false) :
+theorem gwBackendError_unsent (cfg : Cfg) (st : St) (hs : st.started = true) (hn : st.hdrSent = false)
+    (hb : bodiless cfg st = false) :
     gwBackendError cfg st = { (backendIncomplete st) with open_ := false } := by
-  simp [gwBackendError, backendError, hs, hn, gwClose, backendIncomplete]
+  simp [gwBackendError, backendError, hs, hn, hb, gwClose, backendIncomplete]
 
-theorem gwBackendError_sent (cfg : Cfg) (st : St) (hs : st.started = true) (hn : st.hdrSent = true) :
+theorem gwBackendError_sent (cfg : Cfg) (st : St) (hs : st.started = true) (hn : st.hdrSent = true)
+    (hb : bodiless cfg st = false) :
     gwBackendError cfg st =
       { st with open_ := false, handler := false, keepAlive := false, finished := true,
                 cerr := st.cerr || decide (cfg.ver ≥ 2) } := by
-  simp [gwBackendError, backendError, hs, hn, gwClose, backendAbort]
+  simp [gwBackendError, backendError, hs, hn, hb, gwClose, backendAbort]
 
 
 theorem chunkClose_noappend (st : St) (h : st.sendChunked = true → st.dc.isSome = true) :
@@ -1234,5 +1236,567 @@ theorem gwClose_handler (cfg : Cfg) (st : St) (hh : st.handler = true) :
     gwClose cfg st = backendDone cfg { st with open_ := false } := by
   unfold gwClose
   simp only [hh, if_true]
+
+/-! ## the client-side frame: what reading from the backend never touches -/
+
+/-- `b` has the client-side state of `a`, and the same `started` flag -/
+def Fr0 (a b : St) : Prop := b.cstate = a.cstate ∧ b.hdrSent = a.hdrSent ∧ b.started = a.started ∧ b.cerr = a.cerr
+/-- ... `started` may have become true -/
+def Fr1 (a b : St) : Prop :=
+  b.cstate = a.cstate ∧ b.hdrSent = a.hdrSent ∧ (a.started = true → b.started = true) ∧ b.cerr = a.cerr
+/-- ... `started` survives once the response head is out -/
+def Fr2 (a b : St) : Prop :=
+  b.cstate = a.cstate ∧ b.hdrSent = a.hdrSent ∧ (a.started = true → a.hdrSent = true → b.started = true) ∧
+  (b.cerr = true → a.cerr = true ∨ a.hdrSent = true)
+
+theorem Fr0.refl (a : St) : Fr0 a a := ⟨rfl, rfl, rfl, rfl⟩
+theorem Fr0.trans {a b c : St} (h1 : Fr0 a b) (h2 : Fr0 b c) : Fr0 a c :=
+  ⟨h2.1.trans h1.1, h2.2.1.trans h1.2.1, h2.2.2.1.trans h1.2.2.1, h2.2.2.2.trans h1.2.2.2⟩
+theorem Fr0.to1 {a b : St} (h : Fr0 a b) : Fr1 a b := ⟨h.1, h.2.1, fun hs => h.2.2.1.trans hs, h.2.2.2⟩
+theorem Fr1.refl (a : St) : Fr1 a a := ⟨rfl, rfl, id, rfl⟩
+theorem Fr1.trans {a b c : St} (h1 : Fr1 a b) (h2 : Fr1 b c) : Fr1 a c :=
+  ⟨h2.1.trans h1.1, h2.2.1.trans h1.2.1, fun hs => h2.2.2.1 (h1.2.2.1 hs), h2.2.2.2.trans h1.2.2.2⟩
+theorem Fr1.to2 {a b : St} (h : Fr1 a b) : Fr2 a b :=
+  ⟨h.1, h.2.1, fun hs _ => h.2.2.1 hs, fun hc => Or.inl (h.2.2.2 ▸ hc)⟩
+theorem Fr2.refl (a : St) : Fr2 a a := ⟨rfl, rfl, fun h _ => h, fun h => Or.inl h⟩
+theorem Fr2.trans {a b c : St} (h1 : Fr2 a b) (h2 : Fr2 b c) : Fr2 a c :=
+  ⟨h2.1.trans h1.1, h2.2.1.trans h1.2.1, fun hs hh => h2.2.2.1 (h1.2.2.1 hs hh) (h1.2.1.trans hh),
+   fun hc => (h2.2.2.2 hc).elim (fun h => h1.2.2.2 h) (fun h => Or.inr (h1.2.1 ▸ h))⟩
+
+theorem fr0_chunkAppend (st : St) (d : Bytes) : Fr0 st (chunkAppend st d) := by
+  unfold chunkAppend Fr0; repeat' split
+  all_goals simp
+
+theorem fr0_dechunkAppend (st : St) (d : Bytes) : Fr0 st (dechunkAppend st d).1 := by
+  unfold dechunkAppend Fr0; dsimp only; repeat' split
+  all_goals simp
+
+theorem fr0_of_eq {a b c : St} (h : Fr0 b c) (h1 : b.cstate = a.cstate) (h2 : b.hdrSent = a.hdrSent)
+    (h3 : b.started = a.started) (h4 : b.cerr = a.cerr := by rfl) : Fr0 a c := Fr0.trans ⟨h1, h2, h3, h4⟩ h
+
+theorem fr0_appendMem (st : St) (d : Bytes) : Fr0 st (appendMem st d).1 := by
+  unfold appendMem; dsimp only; repeat' split
+  · exact fr0_dechunkAppend st d
+  · exact fr0_of_eq (fr0_chunkAppend _ _) rfl rfl rfl
+  · exact fr0_of_eq (fr0_chunkAppend _ _) rfl rfl rfl
+  · exact Fr0.refl st
+  · exact fr0_chunkAppend st d
+
+theorem fr0_transferCqlen (st : St) (d : Bytes) : Fr0 st (transferCqlen st d).1 := by
+  unfold transferCqlen; dsimp only; repeat' split
+  · exact Fr0.refl st
+  · exact fr0_dechunkAppend st d
+  · exact fr0_of_eq (fr0_chunkAppend _ _) rfl rfl rfl
+  · exact fr0_of_eq (fr0_chunkAppend _ _) rfl rfl rfl
+  · exact fr0_chunkAppend st d
+
+theorem fr0_applyField (cfg : Cfg) (st : St) (k v : Bytes) : Fr0 st (applyField cfg st k v) := by
+  unfold applyField Fr0; dsimp only; repeat' split
+  all_goals simp
+
+theorem fr0_applyLine (cfg : Cfg) (st : St) (l : Bytes) : Fr0 st (applyLine cfg st l) := by
+  unfold applyLine; split
+  · exact Fr0.refl st
+  · exact fr0_applyField cfg st _ _
+
+theorem fr0_foldl_applyLine (cfg : Cfg) (ls : List Bytes) : ∀ st : St, Fr0 st (ls.foldl (applyLine cfg) st) := by
+  induction ls with
+  | nil => intro st; exact Fr0.refl st
+  | cons l rest ih => intro st; exact Fr0.trans (fr0_applyLine cfg st l) (ih _)
+
+theorem fr0_applyLines (cfg : Cfg) (st : St) (ls : List Bytes) : Fr0 st (applyLines cfg st ls) := by
+  unfold applyLines; dsimp only; split
+  · exact Fr0.trans (fr0_foldl_applyLine cfg ls st) ⟨rfl, rfl, rfl, rfl⟩
+  · exact fr0_foldl_applyLine cfg ls st
+
+theorem fr0_processHeaders (cfg : Cfg) (st : St) (buf : Bytes) (ls : List Bytes) (nph : Bool) :
+    Fr0 st (processHeaders cfg st buf ls nph) := by
+  unfold processHeaders; repeat' split
+  · exact fr0_of_eq (fr0_applyLines cfg _ _) rfl rfl rfl
+  · exact ⟨rfl, rfl, rfl, rfl⟩
+  · exact fr0_applyLines cfg st ls
+  · exact ⟨rfl, rfl, rfl, rfl⟩
+  · exact fr0_applyLines cfg st ls
+
+theorem fr0_send1xx (cfg : Cfg) (st : St) : Fr0 st (send1xx cfg st) := by
+  unfold send1xx Fr0; dsimp only; repeat' split
+  all_goals simp
+
+/-- NPH detection of http_response_parse_headers() -/
+def isNphBuf (b : Bytes) : Bool :=
+  match firstLine b with
+  | some l => l.length ≥ 12 && b.take 5 = ofString "HTTP/"
+  | none => false
+
+/-- the early exits of http_response_parse_headers() (first line without colon) -/
+def phEarly (cfg : Cfg) (st : St) : Option (St × Rc) :=
+  let b := st.hbuf
+  match firstLine b with
+  | some l =>
+    if !isNphBuf b && !(l.dropLast).contains colon then
+      if l.length ≤ 2 && (l.length = 1 || b.head? = some cr) then none
+      else if cfg.be = .cgi then
+        some ({ (chunkAppend st b) with status := 200, started := true }, .goOn)
+      else some ({ st with status := 502, handler := false }, .finished)
+    else none
+  | none => none
+
+/-- ... the tail of the regular path: the header block is complete and processed (`st1`) -/
+def phTail (cfg : Cfg) (rec_ : St → St × Rc) (st1 : St) (rest : Bytes) : St × Rc :=
+  if st1.status < 200 && st1.status ≠ 0 && st1.status ≠ 101 then
+    rec_ { (send1xx cfg st1) with hbuf := rest }
+  else
+    let st2 : St := { st1 with started := true }
+    if !st2.handler then (st2, .finished)
+    else if rest.isEmpty then (st2, .goOn)
+    else
+      let (st3, ok) := appendMem st2 rest
+      (st3, if ok then .goOn else .error)
+
+/-- ... the regular path -/
+def phRest (cfg : Cfg) (rec_ : St → St × Rc) (st : St) : St × Rc :=
+  if (hoff st.hbuf).2 = 0 then (st, .goOn)
+  else phTail cfg rec_ (processHeaders cfg st st.hbuf (hoff st.hbuf).1 (isNphBuf st.hbuf)) (st.hbuf.drop (hoff st.hbuf).2)
+
+theorem parseHeaders_succ (cfg : Cfg) (n : Nat) (st : St) :
+    parseHeaders cfg (n + 1) st =
+      if (if (hoff st.hbuf).2 ≠ 0 then (hoff st.hbuf).2 else st.hbuf.length) > Extracted.maxHttpResponseFieldSize then
+        ({ st with status := 502, handler := false }, .finished)
+      else match phEarly cfg st with
+        | some r => r
+        | none => phRest cfg (parseHeaders cfg n) st := by
+  unfold parseHeaders phEarly phRest phTail isNphBuf
+  dsimp only
+  split
+  · rfl
+  · cases hfl : firstLine st.hbuf <;> simp only [] <;> rfl
+
+theorem fr1_phEarly (cfg : Cfg) (st : St) (r : St × Rc) (h : phEarly cfg st = some r) : Fr1 st r.1 := by
+  unfold phEarly at h
+  dsimp only at h
+  repeat' (split at h)
+  all_goals first
+    | (cases h; done)
+    | (cases h; exact ⟨(fr0_chunkAppend st st.hbuf).1, (fr0_chunkAppend st st.hbuf).2.1, fun _ => rfl, (fr0_chunkAppend st st.hbuf).2.2.2⟩)
+    | (cases h; exact ⟨rfl, rfl, fun hs => hs, rfl⟩)
+
+theorem fr1_phTail (cfg : Cfg) (rec_ : St → St × Rc) (hrec : ∀ s, Fr1 s (rec_ s).1) (st1 : St) (rest : Bytes) :
+    Fr1 st1 (phTail cfg rec_ st1 rest).1 := by
+  unfold phTail
+  split
+  · have := fr0_send1xx cfg st1
+    exact Fr1.trans (b := { (send1xx cfg st1) with hbuf := rest }) ⟨this.1, this.2.1, fun hs => this.2.2.1.trans hs, this.2.2.2⟩ (hrec _)
+  · dsimp only
+    have h2 : Fr1 st1 { st1 with started := true } := ⟨rfl, rfl, fun _ => rfl, rfl⟩
+    split
+    · exact h2
+    · split
+      · exact h2
+      · exact Fr1.trans h2 (fr0_appendMem _ _).to1
+
+theorem fr1_phRest (cfg : Cfg) (rec_ : St → St × Rc) (hrec : ∀ s, Fr1 s (rec_ s).1) (st : St) :
+    Fr1 st (phRest cfg rec_ st).1 := by
+  unfold phRest
+  split
+  · exact Fr1.refl st
+  · exact Fr1.trans (fr0_processHeaders cfg st _ _ _).to1 (fr1_phTail cfg rec_ hrec _ _)
+
+theorem fr1_parseHeaders (cfg : Cfg) : ∀ (fuel : Nat) (st : St), Fr1 st (parseHeaders cfg fuel st).1 := by
+  intro fuel
+  induction fuel with
+  | zero => intro st; exact Fr1.refl st
+  | succ n ih =>
+    intro st
+    rw [parseHeaders_succ]
+    by_cases hsz : (if (hoff st.hbuf).2 ≠ 0 then (hoff st.hbuf).2 else st.hbuf.length) > Extracted.maxHttpResponseFieldSize
+    · rw [if_pos hsz]; exact ⟨rfl, rfl, fun hs => hs, rfl⟩
+    · rw [if_neg hsz]
+      cases he : phEarly cfg st with
+      | some r => exact fr1_phEarly cfg st r he
+      | none => exact fr1_phRest cfg _ ih st
+
+theorem fr1_headerStep (cfg : Cfg) (st : St) (d : Bytes) : Fr1 st (headerStep cfg st d).1 := by
+  unfold headerStep
+  exact Fr1.trans (b := { st with hbuf := st.hbuf ++ d }) ⟨rfl, rfl, fun h => h, rfl⟩ (fr1_parseHeaders cfg _ _)
+
+theorem fr1_readPlain (cfg : Cfg) (st : St) (seg : Bytes) : Fr1 st (readPlain cfg st seg).1 := by
+  unfold readPlain
+  have hh := fr1_headerStep cfg st seg
+  split
+  · dsimp only
+    split
+    · exact hh
+    · split
+      · split
+        · exact Fr1.trans hh ⟨rfl, rfl, fun h => h, rfl⟩
+        · exact Fr1.trans hh ⟨rfl, rfl, fun h => h, rfl⟩
+      · exact hh
+  · dsimp only
+    split
+    · exact (fr0_appendMem st seg).to1
+    · exact (fr0_appendMem st seg).to1
+
+theorem fr1_fcgiDispatch (cfg : Cfg) : ∀ (evs : List FrEv) (st : St), Fr1 st (fcgiDispatch cfg evs st).1 := by
+  intro evs
+  induction evs with
+  | nil => intro st; exact Fr1.refl st
+  | cons ev rest ih =>
+    intro st
+    unfold fcgiDispatch
+    split
+    · split
+      · exact ih st
+      · split
+        · dsimp only
+          have hh := fr1_headerStep cfg st ‹Bytes›
+          split
+          · exact Fr1.trans hh ⟨rfl, rfl, fun h => h, rfl⟩
+          · exact Fr1.trans hh (ih _)
+        · split
+          · dsimp only
+            have ht := (fr0_transferCqlen st ‹Bytes›).to1
+            split
+            · exact Fr1.trans ht ⟨rfl, rfl, fun h => h, rfl⟩
+            · exact Fr1.trans ht (ih _)
+          · exact ih st
+    · exact ih st
+    · exact Fr1.refl st
+    · exact ih st
+
+theorem fr1_readFcgi (cfg : Cfg) (st : St) (seg : Bytes) : Fr1 st (readFcgi cfg st seg).1 := by
+  unfold readFcgi
+  dsimp only
+  exact Fr1.trans (b := { st with fcgi := { (frFeed { st.fcgi with evs := [] } seg) with evs := [] } })
+    ⟨rfl, rfl, fun h => h, rfl⟩ (fr1_fcgiDispatch cfg _ _)
+
+theorem fr0_chunkClose (st : St) : Fr0 st (chunkClose st) := by
+  unfold chunkClose Fr0; repeat' split
+  all_goals simp
+
+theorem fr2_backendIncomplete (st : St) (h : st.hdrSent = false) : Fr2 st (backendIncomplete st) := by
+  refine ⟨by simp [backendIncomplete, bodyClear], by simp [backendIncomplete, bodyClear], ?_,
+          fun hc => Or.inl (by simpa [backendIncomplete, bodyClear] using hc)⟩
+  intro _ hh; rw [h] at hh; cases hh
+
+theorem fr2_backendDone (cfg : Cfg) (st : St) : Fr2 st (backendDone cfg st) := by
+  unfold backendDone
+  split
+  · exact Fr2.refl st
+  · split
+    · exact ⟨rfl, rfl, fun h _ => h, fun h => Or.inl h⟩
+    · split
+      · split
+        · rename_i h
+          have : st.hdrSent = false := by
+            cases hh : st.hdrSent <;> simp [hh] at h ⊢
+          exact fr2_backendIncomplete st this
+        · rename_i hnt
+          dsimp only
+          have h1 : Fr2 st (if bodyTruncated cfg st = true then backendAbort cfg st else st) := by
+            split
+            · rename_i ht
+              have hsent : st.hdrSent = true := by
+                cases hh : st.hdrSent <;> simp [hh, ht] at hnt ⊢
+              exact ⟨rfl, rfl, fun h _ => h, fun _ => Or.inr hsent⟩
+            · exact Fr2.refl st
+          split
+          · exact Fr2.trans h1 (Fr2.trans (fr0_chunkClose _).to1.to2 ⟨rfl, rfl, fun h _ => h, fun h => Or.inl h⟩)
+          · exact Fr2.trans h1 ⟨rfl, rfl, fun h _ => h, fun h => Or.inl h⟩
+      · exact Fr2.refl st
+
+theorem fr2_backendError (cfg : Cfg) (st : St) : Fr2 st (backendError cfg st) := by
+  unfold backendError
+  split
+  · exact Fr2.refl st
+  · split
+    · rename_i h
+      have : st.hdrSent = false := by
+        cases hh : st.hdrSent <;> simp [hh] at h ⊢
+      exact fr2_backendIncomplete st this
+    · rename_i hns
+      split
+      · rename_i hst
+        have hsent : st.hdrSent = true := by
+          cases hh : st.hdrSent <;> simp [hh, hst] at hns ⊢
+        exact ⟨rfl, rfl, fun h _ => h, fun _ => Or.inr hsent⟩
+      · exact Fr2.refl st
+
+theorem fr2_gwClose (cfg : Cfg) (st : St) : Fr2 st (gwClose cfg st) := by
+  unfold gwClose
+  dsimp only
+  split
+  · exact Fr2.trans (b := { st with open_ := false }) ⟨rfl, rfl, fun h _ => h, fun h => Or.inl h⟩ (fr2_backendDone cfg _)
+  · exact ⟨rfl, rfl, fun h _ => h, fun h => Or.inl h⟩
+
+theorem fr2_gwBackendError (cfg : Cfg) (st : St) : Fr2 st (gwBackendError cfg st) :=
+  Fr2.trans (fr2_backendError cfg st) (fr2_gwClose cfg _)
+
+theorem fr2_gwRecvData (cfg : Cfg) (st : St) (seg : Bytes) : Fr2 st (gwRecvData cfg st seg) := by
+  unfold gwRecvData
+  have h1 : Fr2 st (if cfg.be = .fcgi then readFcgi cfg st seg else readPlain cfg st seg).1 := by
+    split
+    · exact (fr1_readFcgi cfg st seg).to2
+    · exact (fr1_readPlain cfg st seg).to2
+  generalize (if cfg.be = .fcgi then readFcgi cfg st seg else readPlain cfg st seg) = r at h1
+  obtain ⟨st1, rc⟩ := r
+  cases rc
+  · exact h1
+  · exact Fr2.trans h1 (fr2_gwClose cfg st1)
+  · exact Fr2.trans h1 (fr2_gwBackendError cfg st1)
+
+theorem fr2_gwRecvEnd (cfg : Cfg) (st : St) (e : End) : Fr2 st (gwRecvEnd cfg st e) := by
+  unfold gwRecvEnd
+  repeat' split
+  all_goals first
+    | exact Fr2.refl st
+    | exact fr2_gwClose cfg st
+    | exact fr2_gwBackendError cfg st
+
+/-! ## the reachability invariant of the relay -/
+
+/-- What every state of a relay satisfies (`inv_init`, `inv_onData`): the client-side state machine and
+    the "response head sent" flag agree; a response that is being written while the backend is
+    still there has started and is unfinished. -/
+structure Inv (st : St) : Prop where
+  handle : st.cstate = .handle → st.hdrSent = false
+  write : st.cstate = .write → st.hdrSent = true
+  wstarted : st.cstate = .write → st.open_ = true → st.started = true
+  unfinished : st.open_ = true → (st.cstate = .handle ∨ st.cstate = .write) → st.finished = false
+  cerrSent : st.cerr = true → st.hdrSent = true
+
+theorem inv_init : Inv ({} : St) :=
+  ⟨fun _ => rfl, fun h => (by cases h), fun h => (by cases h), fun _ _ => rfl, fun h => (by cases h)⟩
+
+/-- write-prepare keeps the backend/client bookkeeping; while it leaves the response unfinished it
+    does not touch `started` either -/
+def WpRel (a b : St) : Prop :=
+  b.open_ = a.open_ ∧ b.cstate = a.cstate ∧ b.hdrSent = a.hdrSent ∧ b.cerr = a.cerr ∧
+  (b.finished = false → b.started = a.started ∧ a.finished = false)
+
+theorem WpRel.refl (a : St) : WpRel a a := ⟨rfl, rfl, rfl, rfl, fun h => ⟨rfl, h⟩⟩
+theorem WpRel.trans {a b c : St} (h1 : WpRel a b) (h2 : WpRel b c) : WpRel a c :=
+  ⟨h2.1.trans h1.1, h2.2.1.trans h1.2.1, h2.2.2.1.trans h1.2.2.1, h2.2.2.2.1.trans h1.2.2.2.1,
+   fun hf => ⟨((h2.2.2.2.2 hf).1).trans (h1.2.2.2.2 (h2.2.2.2.2 hf).2).1, (h1.2.2.2.2 (h2.2.2.2.2 hf).2).2⟩⟩
+
+theorem wprel_wpStatus (st : St) : WpRel st (wpStatus st) := by
+  unfold wpStatus
+  repeat' split
+  · exact ⟨by simp [bodyClear], by simp [bodyClear], by simp [bodyClear], by simp [bodyClear], fun h => by simp at h⟩
+  · exact ⟨by simp [bodyClear], by simp [bodyClear], by simp [bodyClear], by simp [bodyClear], fun h => by simp at h⟩
+  · exact WpRel.refl st
+  · unfold staticErrdoc
+    split
+    · exact WpRel.refl st
+    · dsimp only
+      split <;> exact ⟨by simp [bodyClear], by simp [bodyClear], by simp [bodyClear], by simp [bodyClear], fun h => by simp at h⟩
+  · exact WpRel.refl st
+
+theorem wprel_mergeTrailers (cfg : Cfg) (st : St) : WpRel st (mergeTrailers cfg st) := by
+  unfold mergeTrailers
+  repeat' split
+  all_goals exact ⟨rfl, rfl, rfl, rfl, fun h => ⟨rfl, h⟩⟩
+
+theorem wprel_wpLength (cfg : Cfg) (st : St) : WpRel st (wpLength cfg st) := by
+  unfold wpLength wpSetLength wpStartStreaming
+  dsimp only
+  repeat' split
+  all_goals exact ⟨rfl, rfl, rfl, rfl, fun h => ⟨rfl, h⟩⟩
+
+theorem wprel_wpHead (cfg : Cfg) (st : St) : WpRel st (wpHead cfg st) := by
+  unfold wpHead
+  split
+  · exact ⟨by simp [bodyClear], by simp [bodyClear], by simp [bodyClear], by simp [bodyClear], fun h => by simp at h⟩
+  · exact WpRel.refl st
+
+theorem wprel_writePrepare (cfg : Cfg) (st : St) : WpRel st (writePrepare cfg st) :=
+  WpRel.trans (WpRel.trans (WpRel.trans (wprel_wpStatus st) (wprel_mergeTrailers cfg _)) (wprel_wpLength cfg _))
+    (wprel_wpHead cfg _)
+
+theorem h1Progress_proj (st : St) :
+    (h1Progress st).hdrSent = st.hdrSent ∧ (h1Progress st).open_ = st.open_ ∧ (h1Progress st).started = st.started ∧
+    (h1Progress st).finished = st.finished ∧
+    ((st.finished = true ∧ (h1Progress st).cstate = .done) ∨ (st.finished = false ∧ (h1Progress st).cstate = st.cstate)) := by
+  unfold h1Progress flush
+  dsimp only
+  cases hf : st.finished <;> simp [hf]
+
+theorem h2Progress_proj (cfg : Cfg) (st : St) :
+    (h2Progress cfg st).hdrSent = st.hdrSent ∧ (h2Progress cfg st).open_ = st.open_ ∧
+    (h2Progress cfg st).started = st.started ∧ (h2Progress cfg st).finished = st.finished ∧
+    ((h2Progress cfg st).cstate = .done ∨ (st.finished = false ∧ (h2Progress cfg st).cstate = st.cstate)) := by
+  unfold h2Progress flush
+  dsimp only
+  cases hc : st.cerr <;> cases hf : st.finished <;> cases hs : cfg.streaming <;> simp [hc, hf, hs]
+
+/-- the write state: progress keeps the invariant -/
+theorem inv_progress (cfg : Cfg) (g : St) (hc : g.cstate = .write) (hsent : g.hdrSent = true)
+    (hst : g.open_ = true → g.finished = false → g.started = true) :
+    Inv (if cfg.ver ≥ 2 then h2Progress cfg g else h1Progress g) := by
+  split
+  · obtain ⟨p1, p2, p3, p4, p5⟩ := h2Progress_proj cfg g
+    refine ⟨fun h => ?_, fun _ => by rw [p1, hsent], fun hw ho => ?_, fun _ h => ?_, fun _ => by rw [p1, hsent]⟩
+    · rcases p5 with p | ⟨_, p⟩ <;> rw [p] at h
+      · cases h
+      · rw [hc] at h; cases h
+    · rcases p5 with p | ⟨pf, _⟩
+      · rw [p] at hw; cases hw
+      · rw [p3]; exact hst (p2 ▸ ho) pf
+    · rcases p5 with p | ⟨pf, _⟩
+      · rw [p] at h; rcases h with h | h <;> cases h
+      · rw [p4, pf]
+  · obtain ⟨p1, p2, p3, p4, p5⟩ := h1Progress_proj g
+    refine ⟨fun h => ?_, fun _ => by rw [p1, hsent], fun hw ho => ?_, fun _ h => ?_, fun _ => by rw [p1, hsent]⟩
+    · rcases p5 with ⟨_, p⟩ | ⟨_, p⟩ <;> rw [p] at h
+      · cases h
+      · rw [hc] at h; cases h
+    · rcases p5 with ⟨_, p⟩ | ⟨pf, _⟩
+      · rw [p] at hw; cases hw
+      · rw [p3]; exact hst (p2 ▸ ho) pf
+    · rcases p5 with ⟨_, p⟩ | ⟨pf, _⟩
+      · rw [p] at h; rcases h with h | h <;> cases h
+      · rw [p4, pf]
+
+theorem inv_startResponse (cfg : Cfg) (g : St) (hs : g.open_ = true → g.finished = false → g.started = true) :
+    Inv (startResponse cfg g) := by
+  unfold startResponse
+  dsimp only
+  generalize hg1 : (if g.status = 0 then { g with status := 200 } else g) = g1
+  have e1 : g1.open_ = g.open_ ∧ g1.finished = g.finished ∧ g1.started = g.started := by
+    rw [← hg1]; split <;> simp
+  obtain ⟨w1, _, _, _, w5⟩ := wprel_writePrepare cfg g1
+  have hst : (writePrepare cfg g1).open_ = true → (writePrepare cfg g1).finished = false →
+      (writePrepare cfg g1).started = true := by
+    intro ho hf
+    obtain ⟨a, b⟩ := w5 hf
+    rw [a, e1.2.2]
+    exact hs (by rw [← e1.1, ← w1]; exact ho) (by rw [← e1.2.1]; exact b)
+  by_cases hv : cfg.ver ≥ 2
+  · rw [if_pos hv]
+    have := inv_progress cfg
+      { (writePrepare cfg g1) with evs := (writePrepare cfg g1).evs ++ [.hdrs (writePrepare cfg g1).status (renderHdrs (writePrepare cfg g1).headers)],
+                                   hdrSent := true, cstate := .write } rfl rfl hst
+    rw [if_pos hv] at this
+    exact this
+  · rw [if_neg hv]
+    have := inv_progress cfg { (h1SendHeaders cfg (writePrepare cfg g1)) with cstate := .write } rfl
+      (by simp [h1SendHeaders]) (by simpa [h1SendHeaders] using hst)
+    rw [if_neg hv] at this
+    exact this
+
+theorem inv_conStep (cfg : Cfg) (st g : St) (hi : Inv st) (hf : Fr2 st g) (ho : st.open_ = true)
+    (hc : st.cstate = .handle ∨ st.cstate = .write) : Inv (conStep cfg g) := by
+  unfold conStep
+  rcases hc with hc | hc
+  · have gc : g.cstate = .handle := hf.1.trans hc
+    rw [gc]
+    dsimp only
+    split
+    · rename_i hstart
+      refine inv_startResponse cfg g ?_
+      intro go gf
+      have : g.started = true ∧ cfg.streaming = true := by
+        simpa [handlerStarts, subrequestWaits, go, gf] using hstart
+      exact this.1
+    · rename_i hstart
+      refine ⟨fun _ => hf.2.1.trans (hi.handle hc), fun h => (by rw [gc] at h; cases h),
+              fun h => (by rw [gc] at h; cases h), fun go _ => ?_,
+              fun hce => hf.2.1.trans ((hf.2.2.2 hce).elim hi.cerrSent id)⟩
+      cases gf : g.finished
+      · rfl
+      · simp [handlerStarts, subrequestWaits, go, gf] at hstart
+  · have gc : g.cstate = .write := hf.1.trans hc
+    rw [gc]
+    refine inv_progress cfg g gc (hf.2.1.trans (hi.write hc)) ?_
+    intro _ _
+    exact hf.2.2.1 (hi.wstarted hc ho) (hi.write hc)
+
+/-- **the invariant is kept by every backend read** -/
+theorem inv_onData (cfg : Cfg) (st : St) (seg : Bytes) (hi : Inv st) : Inv (onData cfg st seg) := by
+  unfold onData
+  split
+  · exact hi
+  · rename_i h
+    split
+    · exact ⟨fun h => (by cases h), fun h => (by cases h), fun h => (by cases h),
+             fun _ h => (by rcases h with h | h <;> cases h), hi.cerrSent⟩
+    · have ho : st.open_ = true := by
+        cases hh : st.open_ <;> simp [hh] at h ⊢
+      have hc : st.cstate = .handle ∨ st.cstate = .write := by
+        cases hh : st.cstate <;> simp [hh] at h ⊢
+      exact inv_conStep cfg st _ hi (fr2_gwRecvData cfg st seg) ho hc
+
+/-- ... and by the event that ends the backend stream -/
+theorem inv_onEnd (cfg : Cfg) (st : St) (e : End) (hi : Inv st) : Inv (onEnd cfg st e) := by
+  unfold onEnd
+  split
+  · exact hi
+  · rename_i h
+    split
+    · exact ⟨fun h => (by cases h), fun h => (by cases h), fun h => (by cases h),
+             fun _ h => (by rcases h with h | h <;> cases h), hi.cerrSent⟩
+    · have ho : st.open_ = true := by
+        cases hh : st.open_ <;> simp [hh] at h ⊢
+      have hc : st.cstate = .handle ∨ st.cstate = .write := by
+        cases hh : st.cstate <;> simp [hh] at h ⊢
+      exact inv_conStep cfg st _ hi (fr2_gwRecvEnd cfg st e) ho hc
+
+/-- every state a relay reaches satisfies the invariant -/
+theorem inv_reach (cfg : Cfg) (segs : List Bytes) : ∀ st : St, Inv st → Inv (segs.foldl (onData cfg) st) := by
+  induction segs with
+  | nil => intro st h; exact h
+  | cons s rest ih => intro st h; exact ih _ (inv_onData cfg st s h)
+
+
+/-! ## the error document, completely -/
+
+theorem wpSetLength_dc (cfg : Cfg) (st : St) : (wpSetLength cfg st).dc = st.dc ∧ (wpSetLength cfg st).dcDone = st.dcDone := by
+  unfold wpSetLength
+  (repeat' split) <;> simp
+
+theorem writePrepare_errdoc_dc (cfg : Cfg) (st : St) (hh : st.handler = false)
+    (h4 : 400 ≤ st.status) (h6 : st.status < 600) : (writePrepare cfg st).dc = none := by
+  obtain ⟨_, _, _, _, _, _, _, e8, e9⟩ := staticErrdoc_proj st hh
+  unfold writePrepare
+  rw [wpStatus_errdoc st h4 h6, mergeTrailers_dc_none cfg _ e9]
+  have hl : wpLength cfg (staticErrdoc st) = wpSetLength cfg (staticErrdoc st) := by simp [wpLength, e8]
+  rw [hl]
+  unfold wpHead
+  split
+  · simp [bodyClear, (wpSetLength_dc cfg (staticErrdoc st)).1, e9]
+  · rw [(wpSetLength_dc cfg (staticErrdoc st)).1, e9]
+
+theorem hdrUnset_nil (k : Bytes) : hdrUnset [] k = [] := by simp [hdrUnset, hasHdr, hdrFind]
+theorem hdrSet_nil (k v : Bytes) : hdrSet [] k v = [(k, v)] := by simp [hdrSet, hdrFind]
+
+def ctHtml : List (Bytes × Bytes) := [(ofString "Content-Type", ofString "text/html")]
+
+theorem ctHtml_noLen : hasHdr ctHtml nContentLength = false ∧ hasHdr ctHtml nTransferEncoding = false := by decide
+
+theorem ctHtml_setCl (v : Bytes) :
+    hdrSet ctHtml (ofString "Content-Length") v = ctHtml ++ [(ofString "Content-Length", v)] := by
+  have h : hdrFind ctHtml (lower (ofString "Content-Length")) = none := by decide
+  simp [hdrSet, h]
+
+/-- the error document lighttpd answers with: exactly Content-Type and the Content-Length of the page -/
+theorem writePrepare_errdoc_headers (cfg : Cfg) (st : St) (hh : st.handler = false)
+    (h4 : 400 ≤ st.status) (h6 : st.status < 600) (h401 : st.status ≠ 401) (hhead : cfg.head = false) :
+    (writePrepare cfg st).headers = ctHtml ++ [(ofString "Content-Length", decBytes (errorPage st.status).length)] := by
+  obtain ⟨_, _, _, _, _, _, _, e8, e9⟩ := staticErrdoc_proj st hh
+  unfold writePrepare
+  rw [wpStatus_errdoc st h4 h6, mergeTrailers_dc_none cfg _ e9]
+  have hl : wpLength cfg (staticErrdoc st) = wpSetLength cfg (staticErrdoc st) := by simp [wpLength, e8]
+  rw [hl]
+  have hw : wpHead cfg (wpSetLength cfg (staticErrdoc st)) = wpSetLength cfg (staticErrdoc st) := by
+    simp [wpHead, hhead]
+  rw [hw]
+  have hs : (staticErrdoc st).headers = ctHtml ∧ (staticErrdoc st).wq = errorPage st.status := by
+    unfold staticErrdoc
+    simp only [hh, Bool.false_eq_true, if_false, h401]
+    simp [bodyClear, hdrUnset_nil, hdrSet_nil, ctHtml]
+  have hpos : (errorPage st.status).length > 0 := by
+    unfold errorPage; simp [ofString]
+  unfold wpSetLength
+  simp [noLen, hs.1, hs.2, ctHtml_noLen.1, ctHtml_noLen.2, hpos, ctHtml_setCl]
+
 
 end LtVerif.BeResp
